@@ -95,6 +95,8 @@ Definition p11_rec (x : sx) : sx :=
   match x with
   | SL [SN id; SN want; SN buf; SN flags; res; SN detail; SN late; SN victim] =>
       if negb (late =? 0) then bad "ask-returned-long-after-its-deadline"
+      else if N.testbit flags 3 then
+        (if is_sym "ok" res then bad "ask-by-or-to-a-peer-the-whitelist-rejects-succeeded" else ok)
       else if is_sym "ok" res then
         if N.testbit detail 0 then bad "ask-returned-bytes-its-handler-did-not-produce"
         else if N.testbit detail 1 then bad "handler-saw-another-request-or-asker"
